@@ -77,7 +77,8 @@ def full_docs():
                                 "targets": [{"os": "linux", "arch": "arm", "variant": "v8", "distros": [{"name": "ubuntu", "version": "24.04"}, {"name": "d", "version": "1"}]}, {}],
                                 "metadata": META},
         "buildpack-composite": {"api": "0.10", "buildpack": copy.deepcopy(bp), "order": [{"group": [{"id": "a/b", "version": "0.0.1", "optional": True}, {"id": "c", "version": "1.0.0"}]}, {"group": [{"id": "d", "version": "2.0.0"}]}], "metadata": META},
-        "plan": {"entries": [{"name": "x", "metadata": META}, {"name": "y"}]},
+        # the same name may be required several times (by several buildpacks, with different metadata)
+        "plan": {"entries": [{"name": "x", "metadata": META}, {"name": "y"}, {"name": "x", "metadata": Meta(("t", {"k": ("s", "other"), "extra": ("i", 2)}))}, {"name": "y"}]},
         "layer": {"types": {"launch": True, "build": True, "cache": True}, "metadata": META},
         "launch": {"processes": [{"type": "web", "command": ["c", "d"], "args": ["a"], "default": True, "working-dir": "/w d"}, {"type": "w", "command": []}],
                    "labels": [{"key": "k", "value": "v"}], "slices": [{"paths": ["*.a", "b"]}, {"paths": []}]},
